@@ -11,9 +11,12 @@ pub use crate::samepos::same_pos_probes;
 
 const PROMOS: [u8; 7] = [0, 1, 2, 3, 4, 5, 6];
 
+/// A fresh board of the model's position, or None. A board that does not read back as that position is
+/// not "a fresh board of the same position": the writer/reader defect behind it belongs to C07/C08/C09,
+/// so the comparisons that need a fresh board simply do not take place.
 fn recover_text(m: &Model) -> Option<Board> {
     match parse_via(&m.to_fen(true), Entry::Sfen) {
-        Ok(Ok(b)) => Some(b),
+        Ok(Ok(b)) if adopt(&b) == *m => Some(b),
         _ => None,
     }
 }
@@ -21,7 +24,7 @@ fn recover_text(m: &Model) -> Option<Board> {
 fn recover_builder(m: &Model) -> Option<Board> {
     let bb = builder_of(m);
     match guard(|| bb.build()) {
-        Ok(Ok(b)) => Some(b),
+        Ok(Ok(b)) if adopt(&b) == *m => Some(b),
         _ => None,
     }
 }
@@ -162,14 +165,8 @@ fn observe_c03(w: &World, cx: &mut Ctx) -> R {
     }
     for (route, rec) in [("text", recover_text(&w.model)), ("builder", recover_builder(&w.model))] {
         match rec {
-            None => {
-                if w.pure_play {
-                    // after legal moves from a start position a fresh board of the same position must exist
-                    // for the comparison the statement makes
-                    cx.fail(format!("C03/no-fresh-board-for-reached-position/{}", route), format!("cannot construct a fresh board of {}", at))?;
-                }
-                cx.hit("restart_refused_unreachable")
-            }
+            // (that a fresh board of a reached position *exists* is C06's promise, not C03's)
+            None => cx.hit("restart_refused_unreachable"),
             Some(rec) => {
                 if rec.checkers() != w.real.checkers() || rec.pinned() != w.real.pinned() {
                     cx.fail(format!("C03/live-vs-fresh/{}", route), format!("live checkers/pins differ from a fresh board at {}", at))?;
@@ -276,13 +273,8 @@ fn observe_c07(w: &mut World, cx: &mut Ctx) -> R {
     if got_s != want_s {
         cx.fail("C07/shredder-text-not-canonical".into(), format!("got {:?} expected {:?}", got_s, want_s))?;
     }
-    // a sign flag asks for nothing on a non-numeric value: still "formatting as Shredder-FEN" / "as FEN"
-    // (width, fill and precision are left alone: padding a whole record is a legitimate reading of them)
-    if let Ok((a, b)) = guard(|| (format!("{:+#}", w.real), format!("{:+}", w.real))) {
-        if a != got_s || b != format!("{}", w.real) {
-            cx.fail("C07/text-depends-on-sign-flag".into(), format!("{{:+#}} gives {:?}, {{:#}} gives {:?}", a, got_s))?;
-        }
-    }
+    // (format flags other than `#` - sign, width, fill, precision - are not asserted: the statement speaks of
+    // formatting as FEN / Shredder-FEN, i.e. `{}` and `{:#}`)
     for e in [Entry::Sfen, Entry::FromStr] {
         match parse_via(&got_s, e) {
             Ok(Ok(b)) => {
@@ -633,15 +625,32 @@ pub fn mask_oracle(w: &World, mask: u64, k: Option<u8>, cx: &mut Ctx) -> R {
     Ok(())
 }
 
-fn abort_at(w: &World, mask: u64, k: usize, batches: usize, cx: &mut Ctx) -> R {
+fn abort_at(w: &World, mask: u64, k: usize, _batches_of_masked_entry: usize, cx: &mut Ctx) -> R {
+    // with a full mask both entry points are exercised (the unmasked one on even abort indices); the batch
+    // count the abort is judged against is always taken from the same entry point (their partitions may differ)
+    let unmasked = mask == !0u64 && k % 2 == 0;
+    let mut batches = 0usize;
+    let counted = guard(|| {
+        let listener = |_: PieceMoves| {
+            batches += 1;
+            false
+        };
+        if unmasked {
+            w.real.generate_moves(listener)
+        } else {
+            w.real.generate_moves_for(BitBoard(mask), listener)
+        }
+    });
+    if counted.is_err() {
+        return cx.fail("C16/panic".into(), format!("mask {:016x} at {}", mask, w.model.to_fen(true)));
+    }
     let mut calls = 0usize;
     let r = guard(|| {
         let listener = |_: PieceMoves| {
             calls += 1;
             calls == k + 1
         };
-        // with a full mask both entry points are exercised (the unmasked one on even abort indices)
-        if mask == !0u64 && k % 2 == 0 {
+        if unmasked {
             w.real.generate_moves(listener)
         } else {
             w.real.generate_moves_for(BitBoard(mask), listener)
